@@ -387,6 +387,16 @@ func main() {
 			r.Violation("", fmt.Sprint("text/", l), fmt.Sprintf("level %d: String()=%q ParseLevel->(%d,%v); MarshalText=%q UnmarshalText->(%d,%v)", l, lv.String(), got, err, b, back, err2), nil)
 		}
 	}
+	// the documented default text forms themselves (README: trace, debug, info, warn, error, fatal, panic; "disabled";
+	// nothing for NoLevel; the number otherwise) - a table written here, not read from the library
+	for lvl, name := range map[zerolog.Level]string{zerolog.TraceLevel: "trace", zerolog.DebugLevel: "debug", zerolog.InfoLevel: "info", zerolog.WarnLevel: "warn",
+		zerolog.ErrorLevel: "error", zerolog.FatalLevel: "fatal", zerolog.PanicLevel: "panic", zerolog.Disabled: "disabled", zerolog.NoLevel: "", zerolog.Level(42): "42", zerolog.Level(-7): "-7"} {
+		got, err := zerolog.ParseLevel(name)
+		r.Eval(fmt.Sprint("name", lvl, lvl.String()), true)
+		if lvl.String() != name || zerolog.LevelFieldMarshalFunc(lvl) != name || err != nil || got != lvl {
+			r.Violation("", "level-name", fmt.Sprintf("level %d: String()=%q LevelFieldMarshalFunc=%q, documented %q; ParseLevel(%q)=(%d,%v)", lvl, lvl.String(), zerolog.LevelFieldMarshalFunc(lvl), name, name, got, err), nil)
+		}
+	}
 	// the text forms must also round-trip when they are customised (upper-case marshal function, renamed values)
 	{
 		oldF, oldInfo, oldWarn := zerolog.LevelFieldMarshalFunc, zerolog.LevelInfoValue, zerolog.LevelWarnValue
